@@ -29,11 +29,14 @@ def sh(cmd, cwd=None, env=None, timeout=1200):
 
 def main():
     prop, n = sys.argv[1].upper(), sys.argv[2]
-    out = '/tmp/seed/out_%s' % prop
+    rnd = 1
+    if '--round' in sys.argv:
+        rnd = int(sys.argv[sys.argv.index('--round') + 1])
+    out = '/tmp/seed/out%s_%s' % ('' if rnd == 1 else str(rnd), prop)
     diff = os.path.join(out, 'change%s.diff' % n)
     demo = os.path.join(out, 'demo%s.py' % n)
     note = os.path.join(out, 'note%s.txt' % n)
-    name = '%s-%s' % (prop, n)
+    name = '%s-%d' % (prop, int(n) + 2 * (rnd - 1))
     if '--name' in sys.argv:
         name = sys.argv[sys.argv.index('--name') + 1]
     wt = tempfile.mkdtemp(prefix='seedcheck_', dir='/tmp')
